@@ -585,7 +585,14 @@ fn decode<'a>(codec: &Codec, sections: &[&'a dyn Data<'a>]) -> BoxedData<'a> {
     let mut section_stack: Vec<BoxedData<'a>> = vec![sections[0].slice_box(0, sections[0].len())];
     for codec_op in codec.ops() {
         let arg0 = section_stack.first().unwrap();
-        let decoded = match codec_op {
+        // The ops below read only the values of a nullable input. Remember its null map so that
+        // it can be attached to the decoded values again.
+        let null_map = if arg0.get_type().is_nullable() {
+            Some(arg0.cast_ref_null_map().to_vec())
+        } else {
+            None
+        };
+        let mut decoded = match codec_op {
             CodecOp::Nullable => {
                 let present = section_stack.pop().unwrap();
                 let mut data = section_stack.pop().unwrap();
@@ -815,6 +822,9 @@ fn decode<'a>(codec: &Codec, sections: &[&'a dyn Data<'a>]) -> BoxedData<'a> {
             CodecOp::UnhexpackStrings(_, _) => todo!(),
             CodecOp::Unknown => todo!(),
         };
+        if let Some(present) = null_map {
+            decoded = decoded.make_nullable(&present);
+        }
         section_stack.pop();
         section_stack.push(decoded);
     }
